@@ -175,6 +175,10 @@ def to_element(bid, it, parts):
     new = [subst(p, {("i", a, me): mark}) for p in parts]
     if any(has(p, lambda x: x == me) for p in new):
         return it, parts                      # the index is used for something else as well
+    if any(has(subst(p, {a: ("c", "@base")}),
+               lambda x: x[0] == "s" and isinstance(x[1], str)
+               and (x[1].startswith("_H_") or x[1] == "_AS")) for p in new):
+        return it, parts          # a hole of a reference may hide other uses of the index
     BV_ITER[bid] = a
     return a, [subst(p, {mark: me}) for p in new]
 
@@ -321,12 +325,22 @@ class Ev:
         self.methods = {}
         self.cls = cls
         if cls is not None:
-            for n in mod.body:
-                if isinstance(n, ast.ClassDef) and n.name == cls:
-                    self.methods = {m.name: m for m in n.body if isinstance(m, ast.FunctionDef)}
-                    break
-            else:
+            classes = {n.name: n for n in mod.body if isinstance(n, ast.ClassDef)}
+            if cls not in classes:
                 raise Unsupported("missing class " + cls)
+
+            def collect(name, seen):
+                # methods of the class and of its base classes defined in the same file
+                # (left-most base wins, the class itself overrides all)
+                if name in seen:
+                    raise Unsupported("cyclic bases of " + name)
+                node, out = classes[name], {}
+                for b in reversed(node.bases):
+                    if isinstance(b, ast.Name) and b.id in classes:
+                        out.update(collect(b.id, seen | {name}))
+                out.update({m.name: m for m in node.body if isinstance(m, ast.FunctionDef)})
+                return out
+            self.methods = collect(cls, set())
         self.opaque = set(opaque)
         self.effect_free = set(effect_free)
         self.raises = []          # (tuple of (atom, polarity), exception class name)
@@ -341,6 +355,7 @@ class Ev:
         self.raises, self.path = [], []
         env = {"@eff": ("l", ())}
         params = [a.arg for a in fn.args.args]
+        params += [a.arg for a in (fn.args.vararg, fn.args.kwarg) if a is not None]
         for p in params:
             env[p] = ("s", p)
         if args:
@@ -414,6 +429,13 @@ class Ev:
                 return ("raise",)
             if isinstance(st, ast.Continue):
                 return ("cont", env)
+            if isinstance(st, ast.Assert):
+                # assert c  =  if not c: raise AssertionError
+                guard = ast.If(test=ast.UnaryOp(op=ast.Not(), operand=st.test),
+                               body=[ast.Raise(exc=ast.Name(id="AssertionError", ctx=ast.Load()),
+                                               cause=None)], orelse=[])
+                stmts = list(stmts[:idx]) + [guard] + list(stmts[idx + 1:])
+                st = guard
             if isinstance(st, ast.If):
                 c = self.expr(st.test, env)
                 before = list(self.path[n_start:])
@@ -567,7 +589,7 @@ class Ev:
                 and f.value.id in env and is_term(env[f.value.id]):
             obj = f.value.id
             args = tuple(self.expr(a, env) for a in call.args)
-            kws = tuple(sorted(("kw", k.arg, self.expr(k.value, env)) for k in call.keywords))
+            kws = tuple(sorted(("kw", k.arg or "**", self.expr(k.value, env)) for k in call.keywords))
             if f.attr == "append" and len(args) == 1 and not kws:
                 base = self.get(env, obj)
                 env[obj] = ("l", base[1] + (args[0],)) if base[0] == "l" else ("app", base, args[0])
@@ -672,14 +694,13 @@ class Ev:
     def iter_binding(self, target, it, bid):
         """(iterated term, function binding the loop target in an environment)
            `for i, x in enumerate(A)` is the index loop over range(len(A)) with x = A[i]"""
-        if it[0] == "call" and it[1] == ("s", "enumerate") and len(it[2]) == 1 and not it[3] \
-                and isinstance(target, (ast.Tuple, ast.List)) and len(target.elts) == 2:
-            a = it[2][0]
+        ix = self.as_indexed(it)
+        if ix is not None:
+            n, elem = ix
 
             def bind(env):
-                self.bind_target(target.elts[0], ("bv", bid), env)
-                self.bind_target(target.elts[1], simp1(("i", a, ("bv", bid))), env)
-            return ("call", RANGE, (mklen(a),), ()), bind
+                self.bind_target(target, elem(("bv", bid)), env)
+            return ("call", RANGE, (n,), ()), bind
         if it[0] == "call" and it[1] in (("s", "enumerate"), ("s", "zip"), ("s", "reversed")):
             raise Unsupported("iteration over " + show(it)[:80])
         if not (it[0] == "call" and it[1] == RANGE):
@@ -689,6 +710,24 @@ class Ev:
             self.bind_target(target, ("bv", bid), env)
         return it, bind
 
+    def as_indexed(self, it):
+        """enumerate(A) / zip(A, B, ..) of equally long sequences / enumerate(zip(..)) as an index
+           loop: (number of iterations, index -> element); None for anything else"""
+        if it[0] != "call" or it[3]:
+            return None
+        if it[1] == ("s", "enumerate") and len(it[2]) == 1:
+            a = it[2][0]
+            inner = self.as_indexed(a)
+            if inner is None:
+                inner = (mklen(a), lambda i: simp1(("i", a, i)))
+            return inner[0], (lambda i: ("t", (i, inner[1](i))))
+        if it[1] == ("s", "zip") and len(it[2]) >= 2:
+            lens = {mklen(a) for a in it[2]}
+            if len(lens) != 1:
+                return None               # zip truncates: only provably equal lengths
+            return lens.pop(), (lambda i: ("t", tuple(simp1(("i", a, i)) for a in it[2])))
+        return None
+
     def bind_target(self, tg, v, env):
         if isinstance(tg, ast.Name):
             env[tg.id] = v
@@ -696,7 +735,7 @@ class Ev:
                 self.bvnames[tg.id] = v[1]
         elif isinstance(tg, (ast.Tuple, ast.List)):
             for k, e in enumerate(tg.elts):
-                self.bind_target(e, ("i", v, C(k)), env)
+                self.bind_target(e, simp1(("i", v, C(k))), env)
             self.bvnames[ast.unparse(tg)] = v[1] if v[0] == "bv" else None
         else:
             raise Unsupported("loop target " + ast.unparse(tg))
@@ -946,7 +985,7 @@ class Ev:
                 and not any(isinstance(a, ast.Starred) for a in e.args):
             return fmt_parts(f.value.value, "{", [self.expr(a, env) for a in e.args],
                              ast.unparse(e))
-        if any(isinstance(a, ast.Starred) for a in e.args) or any(k.arg is None for k in e.keywords):
+        if any(isinstance(a, ast.Starred) for a in e.args):
             raise Unsupported("star arguments " + ast.unparse(e))
         if isinstance(f, ast.Name) and f.id == "map" and len(e.args) == 2 and not e.keywords \
                 and f.id not in env:
@@ -954,7 +993,7 @@ class Ev:
             bid = fresh()
             return mkcomp(bid, self.apply(fun, (("bv", bid),)), self.expr(e.args[1], env), ())
         args = tuple(self.expr(a, env) for a in e.args)
-        kws = tuple(sorted(("kw", k.arg, self.expr(k.value, env)) for k in e.keywords))
+        kws = tuple(sorted(("kw", k.arg or "**", self.expr(k.value, env)) for k in e.keywords))
         if isinstance(f, ast.Name) and isinstance(env.get(f.id), Closure):
             cl = env[f.id]                                 # local def
             return self.inline(cl.fdef, self.bind_args(cl.fdef, args, kws, False), env,
